@@ -1,19 +1,28 @@
 #!/bin/bash
 # run_all_seeds.sh [tier]: every kept seeded change against the check of its
-# property (when registered); prints one line per seed.  Evidence is refreshed
-# from the clean tree afterwards.
+# property; prints one line per seed and writes out/seeds-table.md (the table
+# of DESIGN.md 11.5).  Evidence is refreshed from the clean tree afterwards.
 tier="${1:-quick}"
 cd /verif
+tab=out/seeds-table.md
+echo "| seed | what the change does | check | first failing obligation |" > $tab
+echo "|------|----------------------|-------|--------------------------|" >> $tab
 for d in seeded/C*; do
   name=$(basename "$d"); prop=${name%%-*}
+  what=$(head -1 "$d/README.md" | sed 's/^# *//; s/|/\//g' | cut -c1-110)
   if ! jq -e --arg p "$prop" '.checks[] | select(.property_id==$p)' MANIFEST.json >/dev/null 2>&1; then
-    echo "$name: property $prop has no registered check"; continue
+    echo "$name: property $prop has no registered check"; echo "| $name | $what | — | (no registered check) |" >> $tab; continue
   fi
-  out=$(tools/run_seed.sh "$name" "$prop" "$tier" 2>&1)
-  if echo "$out" | grep -q "^VIOLATION property=$prop"; then
-    echo "$name: DETECTED ($(echo "$out" | grep -c '^VIOLATION') violation lines)"
+  tools/run_seed.sh "$name" "$prop" "$tier" > /dev/null 2>&1
+  log="out/seed-$name-$prop.log"
+  if grep -q "^VIOLATION property=$prop" "$log"; then
+    ob=$(grep -m1 "^  obligation:" "$log" | sed 's/^  obligation: //; s/|/\//g' | cut -c1-140)
+    if grep -q "^bounded\|bounded stand-in" "$log" && [ -z "$ob" ]; then ob="bounded stand-in mismatch"; fi
+    echo "$name: DETECTED ($(grep -c '^VIOLATION' "$log") violation lines): $ob"
+    echo "| $name | $what | ./check $prop | \`$ob\` |" >> $tab
   else
-    echo "$name: MISSED  $(echo "$out" | grep -E '^property|exit=' | tr '\n' ' ')"
+    echo "$name: MISSED  $(grep -E '^property|exit=' "$log" | tr '\n' ' ')"
+    echo "| $name | $what | ./check $prop | **not detected** |" >> $tab
   fi
 done
 tools/refresh_all.sh > /dev/null 2>&1
